@@ -12,6 +12,7 @@ def consts(workers, calls, panic=()):
     c = {"MaxWorkers": str(workers), "Calls": list(calls), "PanicUnits": mtlib.tla_set(panic)}
     c["CloseLock"] = mtlib.ASBUILT["CloseLock"]
     c["WakeOnError"] = mtlib.ASBUILT["WakeOnError"]
+    c["PanicGuard"] = mtlib.ASBUILT["PanicGuard"]
     return c
 
 
